@@ -10,7 +10,7 @@ import (
 	"time"
 )
 
-func writeEvidence(e *engine, prop, tier string, seed int, results []*obligationResult, reachOK, replayed, violCount int, known, incon, sampleViol []string, wall time.Duration) {
+func writeEvidence(e *engine, prop, tier string, seed int, results []*obligationResult, reachOK, obsCompared, replayed, violCount int, known, incon, sampleViol []string, wall time.Duration) {
 	var states, trans, queries, asserts, disch, obligations, discharged int
 	var solverT float64
 	funcs := map[string]bool{}
@@ -106,6 +106,7 @@ func writeEvidence(e *engine, prop, tier string, seed int, results []*obligation
 			"functions_encoded":             fl,
 			"stdlib_functions_executed":     stdl,
 			"native_replays":                replayed,
+			"observed_values_compared_engine_vs_native": obsCompared,
 			"known_findings_seen":           known,
 			"inconclusive":                  incon,
 			"sample_violations":             sampleViol,
